@@ -50,3 +50,34 @@ def routes():
             os.remove(out)
         return (p.stderr.strip() or "extract-routes failed")[-1500:]
     return None
+
+
+# ---------------------------------------------------------------- C04: PL/pgSQL projection of the log (0-init-schema.sql)
+
+@register("schema")
+def schema():
+    """extract/plpgsql (lark, run with python3-vt) -> lean/Generated/Schema.lean (+ build/schema.json for the evidence).
+    The old file is removed first: when the translator meets a construct outside its grammar NO definition is left behind,
+    Props.C04 stops building and the check reports which construct it was."""
+    import subprocess
+    from .common import VERIF, REPO, BUILD
+    out = os.path.join(LEAN, "Generated", "Schema.lean")
+    summary = os.path.join(BUILD, "schema.json")
+    for f in (out, summary):
+        if os.path.exists(f):
+            os.remove(f)
+    os.makedirs(BUILD, exist_ok=True)
+    src = os.path.join(REPO, "internal/storage/ledgerstore/migrations/0-init-schema.sql")
+    if not os.path.exists(src):
+        return "schema file not found: " + src
+    try:
+        p = subprocess.run(["python3-vt", os.path.join(VERIF, "extract", "plpgsql", "translate.py"), src, out, summary],
+                           capture_output=True, text=True, timeout=600)
+    except FileNotFoundError:
+        return "python3-vt (tooling interpreter with lark) not found"
+    if p.returncode != 0:
+        for f in (out, summary):
+            if os.path.exists(f):
+                os.remove(f)
+        return (p.stderr.strip() or "translate.py failed")[-1500:]
+    return None
